@@ -75,6 +75,11 @@ var c06Pool = []poolQuery{
 	{Text: `{ a b #` + strings.Repeat("x", 150) + "\n}"}, // longer than a small MaxQueryBytes
 	{Text: `{ self { self { n(x: {b: "deep"}, z: V0) } } }`},
 	{Text: `{ self { self { n(x: {b: "deep"}) } } }`}, // argument default instead of literal
+	{Text: `{ o { x(y: 7) } req(r: 7) }`},             // one literal at a nullable and at a non-null position
+	{Text: `{ req(r: 7) o { x(y: 7) } }`},             // ... in the other order
+	{Text: `{ n(y: 7) o { x(y: 7) } }`},               // one literal where a list and where an Int is expected
+	{Text: `{ o { x(y: 7) } n(y: [7]) k: n(y: 7) }`},
+	{Text: `{ id f n(x: {a: 7, b: "7"}) req(r: 7) }`},
 }
 
 type CacheAction struct {
